@@ -993,6 +993,13 @@ def render_partitioned(r, iface, rng, location="http://svc.invalid/endpoint", sc
         return any(j == b or (j not in seen and reaches(j, b, seen + (j,))) for j in uses[a] if j in external)
     cyc = [ns for ns in external if reaches(ns, ns)]
     import_cycle3 = any(len([m for m in cyc if reaches(ns, m) and reaches(m, ns)]) >= 3 for ns in cyc)
+    # the same over ALL namespaces: every block of a partition imports only what it uses, so inline blocks that
+    # import each other in a cycle of three or more are merged in an order-dependent, possibly incomplete way too
+    def reaches_any(a, b, seen=()):
+        return any(j == b or (j not in seen and reaches_any(j, b, seen + (j,))) for j in uses[a] if j != a)
+    cyc_any = [ns for ns in range(n) if reaches_any(ns, ns)]
+    import_cycle3 = import_cycle3 or any(
+        len([m for m in cyc_any if reaches_any(ns, m) and reaches_any(m, ns)]) >= 3 for ns in cyc_any)
     for ns in range(n):
         mode = rng.choice(["ximport", "ximport", "wimport"]) if ns in external else "inline"
         for bi, block in enumerate(schemas[ns]):
